@@ -201,7 +201,7 @@ _T = {
             "Trusted: ref.h basis. PosProjector/NegProjector reject k=d themselves, so k=d is not judged.",
             "runtime monitoring: exhaustive enumeration against reference 0/1 matrices"),
     "C17": ("nx=2..130 exhaustively and random nx to 5000, three grid kinds each, with every node, node+-1ulp, midpoint and random interior points plus ten outside points queried.",
-            "Trusted: long double evaluation of the documented grid formula; ulp allowance 4 (linear) / 8+2|log| (log).",
+            "Trusted: long double evaluation of the documented grid formula; ulp allowance 4 (linear) / 8+4|log| (log).",
             "runtime monitoring: predicate oracle on grids and on every lookup result (bracketing, last interval, exception outside)"),
 }
 for _k, (_lt, _ln, _te) in _T.items():
